@@ -19,6 +19,16 @@ for d in sorted(glob.glob(os.path.join(ROOT, "seeded", "*"))):
         earlier.setdefault(m.get("property", os.path.basename(d).split("-")[0]), []).append(f"- {nm}: {what}")
 
 NATURES = {
+    "5": "aim for a defect that a checker probing a dense but PLAUSIBLE grid of inputs would still miss: a trigger that is a conjunction of two or three "
+         "ordinary-looking conditions (e.g. one-sided AND level below 1/2 AND an odd sample size; f32 AND more than 2^24 observations; a merge whose "
+         "LEFT operand is empty AND whose right operand was itself produced by a merge); a value that is special only to the implementation (an "
+         "internal threshold such as 100 000, 1024, DATA_CAP, epsilon, a tie in rounding q*n to x.5, n*p exactly 10, counts whose product "
+         "exceeds 2^53); behaviour that differs between the FIRST call and later calls on the same thread or the same object (lazy statics, memoised "
+         "values, a register that is not reset); non-determinism or dependence on call history; an off-by-one that only shows at the largest or "
+         "smallest admissible argument; a change that is correct for every sample the checker would BUILD BY A SIMPLE RULE (arithmetic progressions, "
+         "constant blocks, symmetric data) but wrong for irregular data (many distinct values, no symmetry, repeated values next to unique ones, "
+         "values given in a non-monotone order); interactions between the incremental API and queries (querying between updates, querying an "
+         "intermediate state and then continuing).",
     "4": "a defect visible only for ONE element / float type (f32 but not f64, String but not integers, unsigned but not signed) or only through generic / "
          "trait dispatch; a defect in the PAYLOAD of an error or in a rarely read accessor (sample_sem, sample_std_dev, percent, width, left/right) rather "
          "than in the interval itself; a defect that needs LARGE sizes or counts (n above 10^5, above 2^24 in f32, above 2^32) or very SMALL ones (n = 2, "
